@@ -19,6 +19,7 @@ from harness.core import pool_map
 from harness.tlsrun import build_tls_capture
 from wire import tlsref as R
 from wire.container import pcapng_bytes
+from wire.l2l4 import mk_flow
 
 
 def inputs(seed, quick):
@@ -50,6 +51,24 @@ def inputs(seed, quick):
     n = len(cap.pkts)
     for name, idx in (("spb tail", {n - 1, n - 2}), ("spb mid", {n // 2}), ("spb all data", set(range(4, n)))):
         out.append((f"tls13 with Simple Packet Blocks: {name}", pcapng_bytes(cap.pkts, spb=idx), "\n".join(keylog) + "\n"))
+    # records damaged in transit (one bit flipped inside the ciphertext of an application record; checksums recomputed): what is exported
+    # for them must not depend on the interpreter's optimisation level or anything else in the environment
+    for ver, suite in [(R.TLS12, 0x003C), (R.TLS11, 0x002F), (R.TLS12, 0xC02F), (R.TLS10, 0x0005)]:
+        from wire.tlsconn import TlsConn
+        from wire.capture import tcp_capture
+        from harness.tlsrun import suites as _suites
+        cdam = TlsConn(ver, _suites()[suite], seed=seed + 41)
+        cdam.app("c", 600)
+        cdam.app("s", 900)
+        cdam.app("c", 40)
+        for r_ in cdam.records:
+            if r_.kind == "APP" and r_.d == "c" and len(r_.raw) > 100:
+                raw = bytearray(r_.raw)
+                raw[len(raw) - 20] ^= 0x10
+                r_.raw = bytes(raw)
+                break
+        capd = tcp_capture([cdam], [mk_flow(30)])
+        out.append((f"damaged record {R.VNAME[ver]} {suite:04x}", pcapng_bytes(capd.pkts), "\n".join(cdam.keylog) + "\n"))
     # key logs with CONFLICTING lines for one client random (a stale / merged log): which line wins is the tool's business, but it must be
     # the same line in every run (hash seed, environment); and secrets that travel only inside the capture (no -s at all)
     for ver, suite in [(R.TLS12, 0xC02F), (R.TLS13, 0x1302), (R.TLS10, 0x002F)]:
@@ -63,7 +82,6 @@ def inputs(seed, quick):
                     pcapng_bytes(cap.pkts, dsbs=[(0, ("CLIENT_RANDOM " + "12" * 32 + " " + "34" * 48 + "\n").encode())]), None))
     from harness.quicrun import build_conn as qbuild
     from wire.capture import Capture, udp_capture
-    from wire.l2l4 import mk_flow
     for k, (first, dup, cutn) in enumerate([("same", True, 0), ("other", False, 0), ("other", True, 0), ("same", False, 2)]):
         b = c04.std_quic_beh(["1302", "1303", "1301", "1304"][k])
         b["first"] = first
@@ -76,7 +94,12 @@ def inputs(seed, quick):
         if cutn:
             dg = dg[:len(dg) - cutn]
         fl = mk_flow(20 + k)
-        cp = udp_capture([(fl, g.d, g.payload, g) for g in dg], cap=Capture(ts0=1_700_000_000_000_000, step=1009))
+        items = [(fl, g.d, g.payload, g) for g in dg]
+        if k % 2 == 0:          # runts with a short header on the connection's own 4-tuple (too short / just long enough for a header-protection sample)
+            rr = random.Random(seed + 31 + k)
+            for n_ in (3, 12, 19, 21, 27):
+                items.insert(rr.randrange(3, len(items) + 1), (fl, rr.choice("cs"), bytes([0x40 | rr.getrandbits(6)]) + bytes(rr.getrandbits(8) for _ in range(8 + n_)), None))
+        cp = udp_capture(items, cap=Capture(ts0=1_700_000_000_000_000, step=1009))
         out.append((f"{'dirty ' if dup or cutn else ''}quic first={first} dup={dup} cut={cutn}", pcapng_bytes(cp.pkts), "\n".join(c.keylog) + "\n"))
     return out
 
@@ -84,8 +107,9 @@ def inputs(seed, quick):
 def _sub(job):
     name, data, kl, hashseed, noisy, opts = job
     d = tempfile.mkdtemp(prefix="cwd_", dir=runner.scratch())
-    env = {"LANG": "de_DE.UTF-8", "TZ": "Pacific/Kiritimati", "COLUMNS": "17", "PYTHONOPTIMIZE": "", "HOME": d, "FOO": "bar" * 50,
+    env = {"LANG": "de_DE.UTF-8", "TZ": "Pacific/Kiritimati", "COLUMNS": "17", "HOME": d, "FOO": "bar" * 50,
            "SSLKEYLOGFILE": os.path.join(d, "no_such_keylog.log") if hashseed % 4 == 1 else os.path.join(d, "other.log"), "TLEXPORT_KEYLOG": "x",
+           "PYTHONOPTIMIZE": ("1" if hashseed % 3 == 0 else "2" if hashseed % 3 == 1 else ""), "PYTHONDEVMODE": "", "PYTHONWARNINGS": "ignore",
            "PYTHONIOENCODING": "latin-1", "LC_ALL": "C"} if noisy else {}
     if noisy:
         with open(os.path.join(d, "other.log"), "w") as f:       # a key log lying around in the working directory / named by the environment
